@@ -30,6 +30,16 @@ fn directive_bases() -> Vec<(String, String)> {
     }
     let all: String = blocks.iter().map(|(_, b)| *b).collect();
     v.push(("directive-all".into(), format!("{head}{all}}}\n")));
+    // items written more than once: references naming one UTxO twice among others, a signer twice, one metadata label
+    // twice, two mints of one asset (whatever is made of them has to be made the same way every time)
+    let r = |ix: u32| format!("0x{}#{ix}", "ab".repeat(32));
+    v.push((
+        "repeated-items".into(),
+        format!(
+            "{head}    reference r1 {{\n        ref: {},\n    }}\n    reference r2 {{\n        ref: {},\n    }}\n    reference r3 {{\n        ref: {},\n    }}\n    reference r4 {{\n        ref: {},\n    }}\n    reference r5 {{\n        ref: {},\n    }}\n    signers {{\n        A,\n        B,\n        A,\n        0x{},\n    }}\n    metadata {{\n        1: \"a\",\n        2: \"b\",\n        1: \"c\",\n    }}\n    mint {{\n        amount: AnyAsset(0x{p}, \"T\", 1),\n        redeemer: (),\n    }}\n    mint {{\n        amount: AnyAsset(0x{p}, \"T\", 2),\n        redeemer: (),\n    }}\n}}\n",
+            r(3), r(1), r(3), r(2), r(0), "0f".repeat(28), p = "cd".repeat(28)
+        ),
+    ));
     v
 }
 
@@ -166,7 +176,9 @@ fn judge(src: &str, with_cli: bool, o: &mut Outcome, detail: &Value) {
         let mut outs = vec![];
         for i in 0..3 {
             o.evals += 1;
-            match run_tx3c(src, &format!("d{i}")) {
+            // the third build writes over what an earlier, longer build left at the output path
+            let stale: Option<Vec<u8>> = if i == 2 { outs.first().map(|b: &Vec<u8>| [b.as_slice(), "\n{\"left\": \"over\"}\n".repeat(40).as_bytes()].concat()) } else { None };
+            match super::c17::run_tx3c_over(src, &format!("d{i}"), &[], stale.as_deref()) {
                 Ok(b) => outs.push(b),
                 Err(_) => {
                     o.class("tx3c-failed");
@@ -266,9 +278,9 @@ impl Prop for C18 {
         "C18"
     }
     fn rule(&self, _tier: Tier) -> String {
-        "every corpus program, 6 directive-bearing bases (withdrawal 3 fields, plutus_witness 2, vote delegation 2, publish 5, donation, all together) \
+        "every corpus program, 6 directive-bearing bases (withdrawal 3 fields, plutus_witness 2, vote delegation 2, publish 5, donation, all together), a base that writes items more than once (references, signers, metadata labels, mints), \
          every spelling-generator program with <= 1 deviation and every distinct program of the typed generator (gen::prog) with <= 2 (thorough 3) deviations: parse+analyze+lower+to_bytes repeated in one process until every iteration order \
-         of every directive's field map (k! for k <= 4 fields) was observed and at least 20 times (cap 600); three fresh tx3c processes; all encodings \
+         of every directive's field map (k! for k <= 4 fields) was observed and at least 20 times (cap 600); three fresh tx3c processes, the third writing over a longer file left at its output path; all encodings \
          and all TII files byte-identical, embedded IR = in-process encoding. Every corpus program additionally through 12 fresh tx3c processes with one command line that declares profiles (one bound to three env files with different values, forced profiles, a protocol name): one byte string. Non-trivial = program lowered and repeated; distinct = distinct sources."
             .into()
     }
